@@ -21,7 +21,7 @@ def r_binders(ctx, rid):
     ctx.rule(rid, 'binder uniqueness: every insert_variable site inserting several binders is fed from Pattern::is_of_type (the only duplicate detector); single-binder sites insert one fresh name into a fresh scope or re-insert the looked-up name')
     fx = ctx.facts()
     sites = fx.callers_of('ast::Scope::insert_variable')
-    ctx.floor(rid, 'insert_variable call sites', len(sites), 5)
+    ctx.floor(rid, 'insert_variable call sites', len(sites), 3)
     seen_fns = {}
     for f, bid, c, t in sites:
         seen_fns.setdefault(f.path, []).append(t['line'])
@@ -36,20 +36,16 @@ def r_binders(ctx, rid):
                 src = e[2][1]
                 if calls_in(src, 'pattern::Pattern::is_of_type'):
                     fed += 1
-                elif path == '<ast::Match as ast::AbstractSyntaxTree>::analyze':
-                    # one binder, directly after push_scope
-                    names = [x[1].split('::')[-1] for x in event_calls(p) if x[1].startswith('ast::Scope::')]
-                    idx = [i for i, x in enumerate(event_calls(p)) if x is e]
-                    ok = 'as_typed_variable' in S(src)
+                elif 'as_typed_variable' in S(src) and S(src).endswith('.0'):
+                    # the single binder of a match arm: one name into the scope that was pushed just before
+                    scope_ev = [x for x in event_calls(p) if x[1].startswith('ast::Scope::') and x[1].split('::')[-1] in ('push_scope', 'pop_scope', 'insert_variable')]
+                    k = [i2 for i2, x in enumerate(scope_ev) if x is e][0]
+                    ok = k > 0 and scope_ev[k - 1][1].endswith('push_scope')
                     fed += 1 if ok else 0
                     if not ok:
-                        verdict, detail = False, 'match arm inserts %s' % S(src)
-                elif path == '<ast::SingleExpression as ast::AbstractSyntaxTree>::analyze':
-                    gv = event_calls(p, 'ast::Scope::get_variable')
-                    ok = bool(gv) and gv[0][2][1] == src
-                    fed += 1 if ok else 0
-                    if not ok:
-                        verdict, detail = False, 'variable arm inserts %s, not the looked-up name' % S(src)
+                        verdict, detail = False, 'match-arm binder %s is not inserted into a freshly pushed scope' % S(src)
+                elif any(g[2][1] == src for g in event_calls(p, 'ast::Scope::get_variable')):
+                    fed += 1      # re-insertion of the name that was just looked up (variable expression)
                 else:
                     verdict, detail = False, 'insert_variable(%s) is not fed by Pattern::is_of_type: duplicate names would be accepted (typing keeps the last binding, code generation finds the first)' % S(src)
         if verdict is None:
@@ -89,8 +85,8 @@ def r_cannot_compile(ctx):
             if (c.startswith('named::PairBuilder') and last == 'comp') or (('CoreConstructible' in c) and last in ('comp', 'case')) or (last == 'unify' and 'Context' in c):
                 n += 1
                 per[path.split('::', 1)[1]] = per.get(path.split('::', 1)[1], 0) + 1
-    ctx.ob(rid, 'fallible-constructions', n >= 26, '%d fallible combinator constructions in compile.rs: %s' % (n, per))
-    ctx.floor(rid, 'fallible combinator constructions', n, 26)
+    ctx.ob(rid, 'fallible-constructions', n >= 16, '%d fallible combinator constructions in compile.rs: %s' % (n, per))
+    ctx.floor(rid, 'fallible combinator constructions', n, 16)
 
 
 def check(ctx):
